@@ -291,12 +291,23 @@ def _tensor(ctx, arr, rng_key=0):
     return tensorenv.want_grad(t, env["state"])
 
 
-def _sl(x):
-    """per-slice scale (B,1,1): every slice is judged relative to its own reference amplitude."""
+def _sl(x, inputs=None):
+    """per-slice scale (B,1,1): every slice is judged relative to its own reference amplitude, but not below 1 % of
+    its own input amplitude (a tiny output whose reference cancels to almost nothing is not a smaller error scale)."""
     s = np.abs(x).reshape(x.shape[0], -1).max(axis=1)
+    if inputs is not None:
+        s = np.maximum(s, 0.01 * np.abs(inputs).reshape(inputs.shape[0], -1).max(axis=1))
     top = float(s.max()) if s.size and s.max() > 0 else 1.0
     s = np.where(s > 0, s, top)
     return s.reshape((-1,) + (1,) * (x.ndim - 1))
+
+
+EPS32 = float(np.finfo(np.float32).eps)
+
+
+def _tol(kind, n):
+    """the coordinate rounding of the float32 sampling grids grows with the image size: ~1.6*N*eps32 measured"""
+    return max(TOL[kind], 400 * n * EPS32)
 
 
 def _amp_factors(rng, B, expanded=False):
@@ -352,9 +363,9 @@ def _run_radon(spec, idx, ctx):
     if not ctx.check(shp == want, "radon_shape", "radon_torch output shape %s, expected %s" % (shp, want), **common):
         return
     ref = np.stack([ctx.state["sk_radon"](masked[b].astype(np.float64), theta=theta_ref, circle=True).T for b in range(B)])  # (B,A,N)
-    scale = _sl(ref)
+    scale = _sl(ref, masked)
     d = np.abs(out - ref) / scale
-    ctx.close(float(d.max()), TOL["radon"], "radon_mismatch", lambda: "N=%d B=%d angles=%s amplitude factors %s: worst at (b,angle,pixel)=%s angle=%.4f torch=%.6g skimage=%.6g slice scale=%.4g" % (n, B, spec["angles"], ["%.1e" % v for v in fac], _at(d), theta_ref[_at(d)[1]], out.flat[int(np.argmax(d))], ref.flat[int(np.argmax(d))], float(scale[_at(d)[0], 0, 0])), theta=spec["theta"], **common)
+    ctx.close(float(d.max()), _tol("radon", n), "radon_mismatch", lambda: "N=%d B=%d angles=%s amplitude factors %s: worst at (b,angle,pixel)=%s angle=%.4f torch=%.6g skimage=%.6g slice scale=%.4g" % (n, B, spec["angles"], ["%.1e" % v for v in fac], _at(d), theta_ref[_at(d)[1]], out.flat[int(np.argmax(d))], ref.flat[int(np.argmax(d))], float(scale[_at(d)[0], 0, 0])), theta=spec["theta"], **common)
 
     # the port masks the image itself: the unmasked image must give the same sinogram
     out_raw, _, out_tensor = _radon_call(ctx, raw, theta32, keep=True)
@@ -417,8 +428,8 @@ def _pipeline(ctx, rng, n, sino_tensor, theta32, rcommon):
     if not ctx.check(o.shape == ref.shape, "iradon_shape", "iradon_torch(radon_torch(x)) shape %s, expected %s" % (o.shape, ref.shape), **common):
         return
     amb = _ambiguous(theta32.astype(np.float64), n, circle, ref.shape[-1])
-    d = np.abs(o - ref) * (~amb)[None] / _sl(ref)
-    ctx.close(float(d.max()), TOL["iradon"], "iradon_mismatch", lambda: "N=%d: iradon_torch fed with the tensor returned by radon_torch (strides %s), filter=%r circle=%s: worst at %s torch=%.6g skimage=%.6g" % (n, tuple(sino_tensor.stride()), f, circle, _at(d), o.flat[int(np.argmax(d))], ref.flat[int(np.argmax(d))]), **common)
+    d = np.abs(o - ref) * (~amb)[None] / _sl(ref, v3)
+    ctx.close(float(d.max()), _tol("iradon", n), "iradon_mismatch", lambda: "N=%d: iradon_torch fed with the tensor returned by radon_torch (strides %s), filter=%r circle=%s: worst at %s torch=%.6g skimage=%.6g" % (n, tuple(sino_tensor.stride()), f, circle, _at(d), o.flat[int(np.argmax(d))], ref.flat[int(np.argmax(d))]), **common)
 
 
 def _radon_independence(ctx, rng, imgs32, theta32, first, ref, scale, common):
@@ -519,13 +530,13 @@ def _run_iradon(spec, idx, ctx):
     if not ctx.check(shp == want, "iradon_shape", "iradon_torch output shape %s, expected %s" % (shp, want), **common):
         return
     ref = np.stack([ctx.state["sk_iradon"](sino32[b].astype(np.float64).T, theta=theta_ref, output_size=osz, filter_name=f, circle=circle) for b in range(B)])
-    scale = _sl(ref)
+    scale = _sl(ref, sino32)
     th_eff = np.linspace(0, 180, A, endpoint=False) if default_theta else theta_ref
     amb = _ambiguous(th_eff, n, circle, out_n)
     if amb.any():
         ctx.count("iradon_boundary_pixels_not_judged", int(amb.sum()))
     d = np.abs(out - ref) * (~amb)[None] / scale
-    ctx.close(float(d.max()), TOL["iradon"], "iradon_mismatch", lambda: "N=%d B=%d A=%d filter=%r circle=%s out=%s theta=%s amplitude factors %s: worst at (b,row,col)=%s torch=%.6g skimage=%.6g slice scale=%.4g" % (n, B, A, f, circle, osz, spec["theta"], ["%.1e" % v for v in fac], _at(d), out.flat[int(np.argmax(d))], ref.flat[int(np.argmax(d))], float(scale[_at(d)[0], 0, 0])), **common)
+    ctx.close(float(d.max()), _tol("iradon", n), "iradon_mismatch", lambda: "N=%d B=%d A=%d filter=%r circle=%s out=%s theta=%s amplitude factors %s: worst at (b,row,col)=%s torch=%.6g skimage=%.6g slice scale=%.4g" % (n, B, A, f, circle, osz, spec["theta"], ["%.1e" % v for v in fac], _at(d), out.flat[int(np.argmax(d))], ref.flat[int(np.argmax(d))], float(scale[_at(d)[0], 0, 0])), **common)
 
     if B > 1:
         per = np.concatenate([_iradon_call(ctx, sino32[b : b + 1], theta32, f, circle, osz)[0] for b in range(B)])
@@ -580,8 +591,8 @@ def _run_bigbatch(spec, idx, ctx):
         ctx.close(float(db.max()), TOL["batch"], "radon_batch_mismatch", lambda: "N=%d B=%d: batched call differs from calls on chunks of %d slices: %d slices differ, first %d, worst %d" % (n, B, chunk, int(np.sum(db.reshape(B, -1).max(1) > TOL["batch"])), int(np.argmax(db.reshape(B, -1).max(1) > TOL["batch"])), _at(db)[0]), **common)
         pick = sorted({0, 1, B // 2, B - 2, B - 1, int(rng.integers(B)), int(rng.integers(B))})
         ref = np.stack([ctx.state["sk_radon"](imgs[b].astype(np.float64), theta=th32.astype(np.float64), circle=True).T for b in pick])
-        d = np.abs(o[pick] - ref) / _sl(ref)
-        ctx.close(float(d.max()), TOL["radon"], "radon_mismatch", lambda: "N=%d B=%d: slice %d of the large batch differs from skimage" % (n, B, pick[_at(d)[0]]), theta="given", angle_class="random", image="noise", batched=True, amplitude="unit", **common)
+        d = np.abs(o[pick] - ref) / _sl(ref, imgs[pick])
+        ctx.close(float(d.max()), _tol("radon", n), "radon_mismatch", lambda: "N=%d B=%d: slice %d of the large batch differs from skimage" % (n, B, pick[_at(d)[0]]), theta="given", angle_class="random", image="noise", batched=True, amplitude="unit", **common)
     else:
         A = int(rng.integers(3, 7))
         circle = bool(rng.random() < 0.5)
@@ -603,8 +614,8 @@ def _run_bigbatch(spec, idx, ctx):
         pick = sorted({0, 1, B // 2, B - 2, B - 1, int(rng.integers(B)), int(rng.integers(B))})
         ref = np.stack([ctx.state["sk_iradon"](sino[b].astype(np.float64).T, theta=th32.astype(np.float64), filter_name=f, circle=circle) for b in pick])
         amb = _ambiguous(th32.astype(np.float64), n, circle, on)
-        d = np.abs(o[pick] - ref) * (~amb)[None] / _sl(ref)
-        ctx.close(float(d.max()), TOL["iradon"], "iradon_mismatch", lambda: "N=%d B=%d: sinogram %d of the large batch differs from skimage" % (n, B, pick[_at(d)[0]]), circle=circle, filter=_fname(f), filter_class=_fclass(f), theta="given", out="default", sino="noise", pad_pow2_differs=bool(circle and _pow2(n) != _pow2(nd)), amplitude="unit", **common)
+        d = np.abs(o[pick] - ref) * (~amb)[None] / _sl(ref, sino[pick])
+        ctx.close(float(d.max()), _tol("iradon", n), "iradon_mismatch", lambda: "N=%d B=%d: sinogram %d of the large batch differs from skimage" % (n, B, pick[_at(d)[0]]), circle=circle, filter=_fname(f), filter_class=_fclass(f), theta="given", out="default", sino="noise", pad_pow2_differs=bool(circle and _pow2(n) != _pow2(nd)), amplitude="unit", **common)
     ctx.nontrivial(("bigbatch", fn, n, spec["log2_elements"]), True)
     ctx.observe(n=n, batch=B, function=fn, elements=int(B * n * n), worst_vs_chunks=float(db.max()), **_env(ctx))
 
